@@ -380,4 +380,7 @@ func c12(c *ctx) {
 	}
 	r.Check(nSites >= 6, "R6/sites", "?", fmt.Sprintf("%d call sites examined", nSites), fmt.Sprintf("only %d call sites of the stake-changing primitives found", nSites))
 
+	// ------------------------------------------------------------------ R7
+	c.ruleRecordRebuiltWhole("R7", "fsm", "Validator", map[string]string{}, 1)
+
 }
